@@ -149,7 +149,7 @@ def sn0d_case(S, rng, n=40):
 
 
 # ---- a small catalogue of runs per tier -------------------------------------------------------------------
-def catalogue(rng, tier, dims=("homogeneous", "spatial_1D", "spatial_2D"), confs=None, cn=False, n0=4, n1=3, n2=1):
+def catalogue(rng, tier, dims=("homogeneous", "spatial_1D", "spatial_2D"), confs=None, cn=False, n0=4, n1=3, n2=1, early_vacuum=False):
     """yield dict(label, S, dt, nsteps, error) for randomly drawn configurations that keep <= 10000 steps
     (so that the spatial models save every step)"""
     out = []
@@ -177,10 +177,13 @@ def catalogue(rng, tier, dims=("homogeneous", "spatial_1D", "spatial_2D"), confs
         holds = [] if rng.random() < 0.5 else [{"duration": rng.choice([300, 900, 1800]), "temp": rng.choice([-5, -8, -10])}]
         prog = dict(start=start, end=end, rate=rng.choice([1.0, 2.0]) / 60, holds=holds, t_tot=tt or 3600.0, dt=1.0)
         if conf == "VISF":
-            over["VISF"] = {"t_vac_start": rng.choice([0.2, 0.4, 0.6]), "t_vac_duration": rng.choice([0.05, 0.1, 0.3]), "kappa": rng.choice([0.01, 0.05])}
+            over["VISF"] = {"t_vac_start": rng.choice([0.15, 0.2, 0.3]), "t_vac_duration": rng.choice([0.1, 0.3]), "kappa": rng.choice([0.01, 0.05])}
+        if conf == "VISF" and early_vacuum:
+            # strong evaporation while the bottom of the vial is still warm: the top is the coldest / most supercooled region
+            over["VISF"] = {"t_vac_start": 0.1, "t_vac_duration": 0.5, "kappa": 0.05}
         if rng.random() < 0.4:
             over.setdefault("solution", {})["solid_fraction"] = rng.choice([0.02, 0.05, 0.1])
-        cnT = rng.choice([-4, -6, -8]) if cn else None
+        cnT = (cn if isinstance(cn, (int, float)) and not isinstance(cn, bool) else rng.choice([-4, -6, -8])) if cn else None
         S = make(dim=dim, conf=conf, height=h, diameter=d, K=K, prog=prog, cnTemp=cnT, extra=over)
         if tt is None:
             dt, _ = step_info(S)
